@@ -414,10 +414,18 @@ static void vh_init(int argc, char **argv, const char *stage)
 	}
 	if (vh_opt.nproc < 1)
 		vh_opt.nproc = 1;
+	/* fatal signals are handled on a stack of their own: a runaway recursion in the library must end as a
+	 * crash witness, not as a process that dies without writing its result */
+	static char vh_altstack[256 * 1024];
+	stack_t ss;
+	memset(&ss, 0, sizeof(ss));
+	ss.ss_sp = vh_altstack;
+	ss.ss_size = sizeof(vh_altstack);
+	sigaltstack(&ss, NULL);
 	struct sigaction sa;
 	memset(&sa, 0, sizeof(sa));
 	sa.sa_handler = vh_fatal;
-	sa.sa_flags = SA_NODEFER;
+	sa.sa_flags = SA_NODEFER | SA_ONSTACK;
 	sigaction(SIGABRT, &sa, NULL);
 	sigaction(SIGSEGV, &sa, NULL);
 	sigaction(SIGFPE, &sa, NULL);
